@@ -219,11 +219,22 @@ def build_response(spec, n, dt, style=None):
             a = float(f)
         return _scalar(float(f), a)
 
+    def response_scalar_narrow(f):
+        # like a hand-written response: returns the narrowest Python type for each
+        # value (int 0/1 at DC or in a stop band, float where the gain is real, complex
+        # elsewhere), so the type of the first evaluation says nothing about the others
+        v = response_scalar_type(f)
+        if v.imag == 0:
+            v = v.real
+            if v == int(v) and abs(v) < 2**53:
+                v = int(v)
+        return v
+
     def response_vectorised(f):
         return h_vec(f)
 
     fn = {"vec": response_vectorised, "scalar_type": response_scalar_type,
-          "scalar_value": response_scalar_value}[style]
+          "scalar_value": response_scalar_value, "scalar_narrow": response_scalar_narrow}[style]
     return h_vec, fn
 
 
@@ -263,7 +274,7 @@ def response_specs(draw, n, passive=False, families=None, negs=None, styles=None
                                              [0.6, -0.8], [3.0, 4.0], [1e-3, 0.0]]))
     spec["neg"] = draw(st.sampled_from(negs or ["herm", "herm", "even", "zero", "junk"]))
     spec["junk"] = _unit_disk(draw) if passive else draw(st.sampled_from([[7.0, -3.0], [0.0, 1.0], [-1.0, 0.0]]))
-    spec["style"] = draw(st.sampled_from(styles or ["vec", "vec", "scalar_type", "scalar_value"]))
+    spec["style"] = draw(st.sampled_from(styles or ["vec", "vec", "scalar_type", "scalar_value", "scalar_narrow"]))
     return spec
 
 
@@ -544,7 +555,7 @@ def identity_cases(draw):
         spec["p"] = [0.0, 1.0]      # pass band covering every bin
     # with force_real only the positive-frequency part of the response counts
     spec["neg"] = draw(st.sampled_from(["herm", "even", "zero", "junk"] if fr else ["herm", "even"]))
-    spec["style"] = draw(st.sampled_from(["vec", "scalar_type", "scalar_value"]))
+    spec["style"] = draw(st.sampled_from(["vec", "scalar_type", "scalar_value", "scalar_narrow"]))
     return dict(grid=g, values=draw(value_specs(n)), resp=spec, force_real=fr,
                 kind=draw(st.sampled_from(["signal", "signal", "function"])),
                 as_int=draw(st.integers(0, 5)) == 0)
@@ -738,7 +749,7 @@ def check_twin(case, rec):
     x = build_values(case["values"], n)
     fr, kind = case["force_real"], case["kind"]
     out = {}
-    for style in ("vec", "scalar_type", "scalar_value"):
+    for style in ("vec", "scalar_type", "scalar_value", "scalar_narrow"):
         h_vec, fn = build_response(case["resp"], n, case["grid"]["dt"], style=style)
         if style != "vec":
             # the twins must really be scalar-only in the way the fall-back expects
@@ -752,7 +763,7 @@ def check_twin(case, rec):
     f = _bins(n, dt)
     hmax = _hmax(h_vec, f, not fr)
     tol = _tol(n, hmax, 2 * _norm((x)), sens=_sens(h_vec, f, not fr))
-    for style in ("scalar_type", "scalar_value"):
+    for style in ("scalar_type", "scalar_value", "scalar_narrow"):
         err = float(np.max(np.abs(out[style] - out["vec"])))
         require(err <= tol, "scalar-only response (%s) gives an output differing by %.3g from its "
                 "vectorised twin (tolerance %.3g; n=%d force_real=%r kind=%s response %r)",
@@ -1106,6 +1117,63 @@ def check_function(case, rec):
 
 _GRID_FLOORS = {"odd_n": 0.18, "n>=1024": 0.065}
 
+
+# ---------------------------------------------------------------------------
+# several filters on one FunctionSignal with DIFFERENT force_real flags: every
+# force_real filter is Hermitian-symmetrised on its own, the others are taken as given
+
+
+@st.composite
+def mixed_flag_cases(draw):
+    g = draw(grid_specs(max_n=512, dyadic=draw(st.booleans()), min_n=3))
+    n = g["n"]
+    k = draw(st.sampled_from([2, 2, 3]))
+    flags = draw(st.lists(st.booleans(), min_size=k, max_size=k))
+    if all(flags) or not any(flags):
+        flags[draw(st.integers(0, k - 1))] = not flags[0]
+    resps = []
+    for fl in flags:
+        # a force_real filter may be positive-frequency-only / junk on the negative side;
+        # the others must be proper signed responses
+        resps.append(draw(response_specs(n, negs=["herm", "even", "zero", "junk"] if fl
+                                         else ["herm", "even"])))
+    return dict(grid=g, values=draw(value_specs(n, allow_list=n <= 24)), resps=resps, flags=flags)
+
+
+def check_mixed_flags(case, rec):
+    from pyrex.signals import FunctionSignal
+    n, times, dt = _grid(case)
+    x = build_values(case["values"], n)
+    built = [build_response(r, n, case["grid"]["dt"]) for r in case["resps"]]
+    sig = FunctionSignal(times, _table_function(float(times[0]), dt, x))
+    for (h_vec, fn), fl in zip(built, case["flags"]):
+        sig.filter_frequencies(fn, force_real=fl)
+    y = read_values(sig, n)
+    f = np.fft.fftfreq(2 * n, d=dt)
+    H = np.ones(2 * n, dtype=complex)
+    hmax = 1.0
+    for (h_vec, fn), fl in zip(built, case["flags"]):
+        if fl:
+            hp = h_vec(np.abs(f))                 # positive-frequency response ...
+            h = np.where(f < 0, np.conj(hp), hp)  # ... mirrored by complex conjugation
+        else:
+            h = h_vec(f)
+        H = H * h
+        hmax *= max(float(np.max(np.abs(h))), 1e-300)
+    ref = np.real(np.fft.ifft(H * np.fft.fft(np.concatenate([x, np.zeros(n)]))))[:n]
+    sens = sum(_sens(h_vec, _bins(n, dt), True) for h_vec, _ in built) * hmax
+    tol = _tol(n, hmax, _norm(x), sens=sens)
+    err = float(np.max(np.abs(y - ref)))
+    require(err <= tol, "FunctionSignal with filters force_real=%r: values differ by %.3g from the signal of the "
+            "product of the individually Hermitian-symmetrised (where force_real) responses (tolerance %.3g; "
+            "n=%d responses %r)", case["flags"], err, tol, n, case["resps"])
+    # non-trivial: some force_real response is not Hermitian by itself
+    nonherm = any(fl and r["neg"] in ("zero", "junk", "even") and (r["neg"] != "even" or abs(r["gain"][1]) > 0)
+                  for r, fl in zip(case["resps"], case["flags"]))
+    rec.case(case, nontrivial=n >= 3 and _nonconstant(x) and nonherm,
+             classes=_grid_classes(n) + ["filters=%d" % len(built)] + (["nonhermitian_forced"] if nonherm else []))
+
+
 PROPERTY = Property(
     "C05", "Frequency filtering is linear, real-preserving, passive and free of wrap-around",
     [
@@ -1161,6 +1229,12 @@ PROPERTY = Property(
                  floors=dict(_GRID_FLOORS, k_near_N=0.17, k_near_0=0.13, advance=0.12, pulse=0.06,
                              pulse_leaves_window=0.02, pulse_cut_by_edge=0.015, rounded_step=0.07,
                              samples_leave_window=0.3, scalar_only=0.15, force_real=0.2)),
+        SubCheck("mixed_flags", mixed_flag_cases(), check_mixed_flags, quick=800, thorough=40000,
+                 rule="FunctionSignal with 2-3 filters whose force_real flags differ (at least one of each); "
+                      "reference = product of the responses, each force_real one mirrored by conjugation on its "
+                      "own, applied once (full complex FFT of the 2N-padded samples); non-trivial = a force_real "
+                      "response that is not Hermitian by itself",
+                 floors={"nonhermitian_forced": 0.3}),
         SubCheck("function_signal", function_cases(), check_function, quick=1000, thorough=50000,
                  rule="FunctionSignal with leading/trailing buffers of whole samples and 1-3 filters against the "
                       "product response applied once to the buffered samples; non-trivial = n>=3 and (several "
